@@ -237,6 +237,51 @@ func (p c17) Run(c *core.Ctx) {
 		}
 		c.Count("twin_bindings_checked", 1)
 	}
+	// the same tag on several fields (of one holder and of a second component): every one of them must
+	// agree with the prefix-bound twin, not only the first one resolved
+	{
+		tag := []string{`value:"${cfg.k}"`, `prop:"cfg.k"`}[c.Rng.Intn(2)]
+		h1 := world.NewHolder(world.BuildStruct([]world.FieldSpec{{Name: "A", Type: ft, Tag: tag}, {Name: "B", Type: ft, Tag: tag}}))
+		h2 := world.NewHolder(world.BuildStruct([]world.FieldSpec{{Name: "C", Type: ft, Tag: tag}, {Name: "P", Type: ft, Tag: `prefix:"cfg.k"`}}))
+		r := world.Start(&world.Scenario{Config: doc}, world.Options{Extra: []any{h1, h2}, NoTracer: true})
+		c.Count("starts", 1)
+		if abnormal(r.Outcome()) {
+			c.Fail("", fmt.Sprintf("repeated tag %s: %s", tag, r.OutcomeDetail()), detail(nil))
+			return
+		}
+		if r.Outcome() == "ok" {
+			for _, f := range []reflect.Value{reflect.ValueOf(h1).Elem().Field(0), reflect.ValueOf(h1).Elem().Field(1), reflect.ValueOf(h2).Elem().Field(0), reflect.ValueOf(h2).Elem().Field(1)} {
+				if !reflect.DeepEqual(f.Interface(), gotP) {
+					c.Fail(classifyC17(v, ft, "value"), fmt.Sprintf("tag %s repeated on several fields with cfg.k=%#v into %s: one field holds %s, the prefix-bound twin holds %s", tag, v.v, ft, renderVal(f.Interface()), renderVal(gotP)), detail(nil))
+					return
+				}
+			}
+			c.Count("repeated_tag_bindings_checked", 4)
+		} else {
+			c.Fail(classifyC17(v, ft, "value"), fmt.Sprintf("tag %s repeated on several fields with cfg.k=%#v into %s fails although a single use succeeds: %s", tag, v.v, ft, core.Short(r.OutcomeDetail(), 200)), detail(nil))
+			return
+		}
+	}
+	// a pointer-typed target that is already allocated (constructed with defaults) must end up with exactly
+	// the configured value, nothing of the old content
+	if pt, old, ok := prefilledTarget(v, c); ok {
+		h := world.NewHolder(world.BuildStruct([]world.FieldSpec{{Name: "F", Type: pt, Tag: `prefix:"cfg.k"`}, {Name: "G", Type: pt, Tag: `value:"${cfg.k}"`}}))
+		hv := reflect.ValueOf(h).Elem()
+		hv.Field(0).Set(old())
+		hv.Field(1).Set(old())
+		r := world.Start(&world.Scenario{Config: doc}, world.Options{Extra: []any{h}, NoTracer: true})
+		c.Count("starts", 1)
+		want := reflect.New(pt.Elem())
+		wantDirect, _, _ := bindOnce(`prefix:"cfg.k"`, pt.Elem(), doc)
+		want.Elem().Set(reflect.ValueOf(wantDirect))
+		for i := 0; i < 2; i++ {
+			if r.Outcome() != "ok" || !reflect.DeepEqual(hv.Field(i).Interface(), want.Interface()) {
+				c.Fail(classifyC17(v, pt, []string{"prefix", "value"}[i]), fmt.Sprintf("pre-allocated %s target bound with cfg.k=%#v holds %s (%s), expected exactly %s", pt, v.v, renderVal(hv.Field(i).Interface()), r.Outcome(), renderVal(want.Interface())), detail(nil))
+				return
+			}
+		}
+		c.Count("preallocated_pointer_targets_checked", 2)
+	}
 	c.Distinct("value_target_pairs", fmt.Sprintf("%#v/%s", v.v, ft))
 	if hostile || big || v.kind == "ints" || v.kind == "strings" || v.kind == "mapss" || v.kind == "mapsi" || v.kind == "struct" {
 		c.Nontrivial(fmt.Sprintf("%#v/%s", v.v, ft))
@@ -317,4 +362,22 @@ func classifyC17(v c17Value, ft reflect.Type, path string) string {
 		}
 	}
 	return ""
+}
+
+// prefilledTarget: for collection / struct values a pointer-typed target type and a constructor of an
+// "old" content that differs from anything configured (longer list, extra keys, other field values).
+func prefilledTarget(v c17Value, c *core.Ctx) (reflect.Type, func() reflect.Value, bool) {
+	switch v.kind {
+	case "ints":
+		return reflect.TypeOf(&[]int64{}), func() reflect.Value { return reflect.ValueOf(&[]int64{-1, -2, -3, -4, -5, -6, -7}) }, true
+	case "strings":
+		return reflect.TypeOf(&[]string{}), func() reflect.Value {
+			return reflect.ValueOf(&[]string{"old0", "old1", "old2", "old3", "old4", "old5"})
+		}, true
+	case "mapss":
+		return reflect.TypeOf(&map[string]string{}), func() reflect.Value { return reflect.ValueOf(&map[string]string{"zz-old": "old", "a": "old-a"}) }, true
+	case "mapsi":
+		return reflect.TypeOf(&map[string]int{}), func() reflect.Value { return reflect.ValueOf(&map[string]int{"zz-old": 99}) }, true
+	}
+	return nil, nil, false
 }
